@@ -582,7 +582,7 @@ def capture_requests(case):
                 old = base_mod.ws_connect
                 base_mod.ws_connect = lambda *a, **k: _CM()
                 try:
-                    c = Client(ws_url="ws://verif.invalid")
+                    c = Client(ws_url="ws://verif.invalid", **clients.tracer_kwargs(kind, case.get("tracer", "none")))
 
                     async def drain():
                         async for _ in getattr(c, find_method(Client, op["name"]))(**(op.get("kwargs") or {})):
@@ -614,7 +614,7 @@ def capture_requests(case):
                 captured["n"] = captured.get("n", 0) + 1
                 return httpx.Response(200, json={"data": {}})
 
-            c = clients.make_client(Client, is_async, handler)
+            c = clients.make_client(Client, is_async, handler, **clients.tracer_kwargs(kind, case.get("tracer", "none")))
             mname = find_method(Client, op["name"])
             try:
                 clients.call(is_async, getattr(c, mname), **(op.get("kwargs") or {}))
